@@ -95,6 +95,20 @@ Proof.
     destruct (IHp2 ltac:(assumption) y Hy) as [G|G]; [left; exact G|right; apply in_app_iff; right; exact G].
 Qed.
 
+Lemma to_args_uarg y l : In (UArg y) (to_args l) -> In (UPend y) l \/ In (UArg y) l.
+Proof.
+  intros H. destruct (to_args_in _ _ H) as [(y0 & E & H')|(E & _ & _)]; [|discriminate].
+  injection E as <-. exact H'.
+Qed.
+
+Lemma to_args_no_pend y l : ~ In (UPend y) (to_args l).
+Proof. intros H. apply in_pend_names in H. rewrite to_args_pend in H. destruct H. Qed.
+
+Lemma final_push2 a z n names names' :
+  AInv a z -> (anext a <= n)%nat ->
+  map (final ((n, false, names) :: env_of z)) (alog a) = map (final ((n, false, names') :: env_of z)) (alog a).
+Proof. intros A Hn. rewrite (final_push a z n names A Hn), (final_push a z n names' A Hn). reflexivity. Qed.
+
 (* the common part of Block, Func, Arrow and Catch: a scope has been entered (frame B on top of z), its
    content has run (state a2), it is exited and the continuation k runs *)
 Section Nested.
@@ -109,7 +123,7 @@ Section Nested.
     grow_one (below V (B', prB)) (fr, pr) (P', pr) ->
     grow_rest (below (below V (B', prB)) (fr, pr)) rest rest1 ->
     (forall y, In y (pnames prB) -> In y (dnames B')) ->
-    (forall y, In (UPend y) (fund B') -> In y Nb) ->
+    (forall y, In (UPend y) (fund B') \/ In (UArg y) (fund B') -> In y Nb) ->
     map (final ((anext a, false, names) :: env_of ((fr, pr) :: rest))) (alog a2)
       = rev ts_b ++ map (final ((anext a, false, names) :: env_of ((fr, pr) :: rest))) (alog a) ->
     anext a2 = n_b -> (anext a <= n_b)%nat ->
@@ -129,6 +143,7 @@ Section Nested.
       incl (func_dnames ((P', pr) :: rest1)) (func_dnames ((fr', pr) :: rest')) /\
       (forall x, In x (headdecls k) -> In x (dnames fr')) /\
       (forall y, In (UPend y) (fund fr') -> In (UPend y) (fund fr) \/ In y Nb \/ In y (allnames k)) /\
+      (forall y, In (UArg y) (fund fr') -> In (UArg y) (fund fr)) /\
       map (final (env_of ((fr, pr) :: rest))) (alog a')
         = rev (fst (resolve_m (env_of ((fr, pr) :: rest)) (func_of ((fr, pr) :: rest)) (fid fr) false n_b k))
           ++ rev ts_b ++ map (final (env_of ((fr, pr) :: rest))) (alog a) /\
@@ -136,19 +151,19 @@ Section Nested.
   Proof.
     intros A A2 HfidB Hnames Hs1 Gp Gr Hfull HNb Fb Nb' Hle Hnd Hlex HVok Hvar Hndh Hhead Hok.
     pose proof (A_frames _ _ A) as [Kfr _].
-    destruct (L_exit a2 B' prB P' pr rest1 A2 Hfull) as (a3 & P'' & H3 & A3 & E1 & E2 & E3 & _ & E4 & N3 & F3).
+    destruct (L_exit a2 B' prB P' pr rest1 A2 Hfull) as (a3 & P'' & H3 & A3 & E1 & E2 & E3 & _ & _ & E4 & E5a & N3 & F3).
     assert (Hs3 : shape ((P'', pr) :: rest1) = shape ((fr, pr) :: rest)).
     { rewrite <- Hs1. cbn. rewrite E1, E2. reflexivity. }
     assert (Edn : dnames P'' = dnames P') by (unfold dnames; rewrite E3; reflexivity).
-    destruct Gp as (Gpi & Gpb & Gpu). unfold dn in Gpi, Gpb. cbn [fst] in Gpi, Gpb, Gpu.
-    destruct (IHk a3 P'' pr rest1 A3 Hnd) as (a' & fr' & rest' & R & A' & G & P1 & P2 & P3 & P4 & F & N).
+    destruct Gp as (Gpi & Gpb & Gpu & Gpa). unfold dn in Gpi, Gpb. cbn [fst] in Gpi, Gpb, Gpu, Gpa.
+    destruct (IHk a3 P'' pr rest1 A3 Hnd) as (a' & fr' & rest' & R & A' & G & P1 & P2 & P3 & P4 & P5 & F & N).
     { intros y Hy. destruct (Hlex y Hy) as [Hyp Hyn]. split; [exact Hyp|]. rewrite Edn. intros Hi.
       destruct (Gpb y Hi) as [H|H]; [contradiction|]. apply (lex_var_contra fr pr rest y Kfr Hyp). apply HVok. exact H. }
     { intros y Hy. apply (var_ok_shape y ((fr, pr) :: rest)); [symmetry; exact Hs3|apply Hvar; exact Hy]. }
     { exact Hndh. }
     { intros y Hy. destruct (Hhead y Hy) as (Q1 & Q2 & Q3 & Q4 & Q5). split; [exact Q1|]. split.
       - rewrite Edn. intros Hi. destruct (Gpb y Hi) as [H|H]; contradiction.
-      - intros Hi. destruct (E4 y Hi) as [H|H]; [apply Q3; apply Gpu; exact H|apply Q5; apply HNb; exact H]. }
+      - intros Hi. destruct (E4 y Hi) as [H|[H|H]]; [apply Q3; apply Gpu; exact H|apply Q5; apply HNb; left; exact H|apply Q5; apply HNb; right; exact H]. }
     { exact Hok. }
     assert (Efid : fid P'' = fid fr) by (cbn in Hs3; injection Hs3 as H _; exact H).
     rewrite (env_of_shape _ _ Hs3), (func_of_shape _ _ Hs3), Efid, N3, Nb' in F, N.
@@ -162,7 +177,8 @@ Section Nested.
     { eapply incl_tran; [|apply (func_dnames_mono _ _ _ _ G)]. cbn [func_dnames]. rewrite E2, Edn. apply incl_refl. }
     split; [exact P3|]. split.
     { intros y Hy. destruct (P4 y Hy) as [H|H]; [|right; right; exact H].
-      destruct (E4 y H) as [H'|H']; [left; apply Gpu; exact H'|right; left; apply HNb; exact H']. }
+      destruct (E4 y H) as [H'|[H'|H']]; [left; apply Gpu; exact H'|right; left; apply HNb; left; exact H'|right; left; apply HNb; right; exact H']. }
+    split; [intros y Hy; apply Gpa; apply E5a; apply P5; exact Hy|].
     split; [|exact N].
     rewrite F. f_equal. rewrite (env_of_shape _ _ Hs1) in F3. rewrite F3.
     assert (Eenv : env_of ((B', prB) :: (P', pr) :: rest1) = (anext a, false, names) :: env_of ((fr, pr) :: rest)).
@@ -180,11 +196,11 @@ Proof.
   cbn [lexdecls] in Hnd, Hlex. cbn [vardecls] in Hvar. cbn [spec_ok] in Hok.
   apply andb_true_iff in Hok. destruct Hok as [Hok Hokk]. apply andb_true_iff in Hok. destruct Hok as [Hsc Hokb].
   destruct (scope_ok_spec [] b Hsc) as (Hndb & Hlv & _).
-  set (prB := mkPr (lexdecls b) []).
+  set (prB := mkPr (lexdecls b) [] false).
   destruct (L_enter a ((fr, pr) :: rest) false prB A) as (a1 & H1 & A1 & El & En).
   { intros y _ []. }
   set (B0 := mkF (anext a) false [] [] O O) in *.
-  destruct (IHb a1 B0 prB ((fr, pr) :: rest) A1 Hndb) as (a2 & B' & z1 & R2 & A2 & G2 & P1b & P2b & P3b & P4b & F2 & N2).
+  destruct (IHb a1 B0 prB ((fr, pr) :: rest) A1 Hndb) as (a2 & B' & z1 & R2 & A2 & G2 & P1b & P2b & P3b & P4b & P5b & F2 & N2).
   { intros y Hy. split; [exact Hy|intros []]. }
   { intros y Hy. cbn [var_ok fisfunc B0]. split.
     - unfold pnames. cbn [pvar plex prB app]. intros Hi. apply (Hlv y Hi Hy).
@@ -204,11 +220,11 @@ Proof.
   { rewrite <- N2. destruct A2 as [_ _ An _]. pose proof (An (B', prB) (or_introl eq_refl)) as H. cbn [fst] in H. lia. }
   destruct (after_scope k (vardecls b) IHk a fr pr rest a2 B' prB P' rest1 (lexdecls b) (fst RB) (snd RB) (allnames b)
               A A2 HfidB eq_refl Hs2)
-    as (a' & fr' & rest' & R & A' & G & P1 & P2 & Pf & P3 & P4 & F & N).
+    as (a' & fr' & rest' & R & A' & G & P1 & P2 & Pf & P3 & P4 & P5 & F & N).
   { rewrite Ebelow. exact Gp. }
   { rewrite Ebelow. exact Gr. }
   { intros y Hy. apply P1b. exact Hy. }
-  { intros y Hy. destruct (P4b y Hy) as [[]|H]. exact H. }
+  { intros y [Hy|Hy]; [destruct (P4b y Hy) as [[]|H]; exact H|destruct (P5b y Hy)]. }
   { exact F2. }
   { exact N2. }
   { exact Hle. }
@@ -226,6 +242,7 @@ Proof.
     apply Pf. specialize (P2b y Hy). cbn [func_dnames] in P2b. rewrite HfB in P2b. exact P2b. }
   split; [cbn [headdecls]; exact P3|]. split.
   { intros y Hy. cbn [allnames]. destruct (P4 y Hy) as [H|[H|H]]; [left; exact H|right; apply in_app_iff; left; exact H|right; apply in_app_iff; right; exact H]. }
+  split; [exact P5|].
   cbn [resolve_m].
   change (resolve_m ((anext a, false, lexdecls b) :: env_of ((fr, pr) :: rest)) (func_of ((fr, pr) :: rest)) (anext a) false (S (anext a)) b)
     with (resolve_m (env_of ((B0, prB) :: (fr, pr) :: rest)) (func_of ((B0, prB) :: (fr, pr) :: rest)) (fid B0) false (S (anext a)) b).
@@ -239,7 +256,7 @@ Lemma run_ok_class ms k :
   lexdecls ms = [] -> vardecls ms = [] -> run_ok (Block ms k) -> run_ok (Class None ms k).
 Proof.
   intros Hl Hv H a fr pr rest A Hnd Hlex Hvar Hndh Hhead Hok.
-  destruct (H a fr pr rest A Hnd Hlex) as (a' & fr' & rest' & R & A' & G & P1 & P2 & P3 & P4 & F & N).
+  destruct (H a fr pr rest A Hnd Hlex) as (a' & fr' & rest' & R & A' & G & P1 & P2 & P3 & P4 & P5 & F & N).
   { cbn [vardecls]. rewrite Hv. exact Hvar. }
   { exact Hndh. } { exact Hhead. }
   { cbn [spec_ok] in *. unfold scope_ok. rewrite Hl. exact Hok. }
@@ -247,7 +264,7 @@ Proof.
   { cbn [lexdecls headdecls vardecls] in *. rewrite Hv in G. exact G. }
   split; [exact P1|]. split.
   { intros y Hy. apply P2. cbn [vardecls] in *. rewrite Hv. exact Hy. }
-  split; [exact P3|]. split; [exact P4|].
+  split; [exact P3|]. split; [exact P4|]. split; [exact P5|].
   cbn [resolve_m] in *. rewrite Hl in F, N.
   pose proof (fun e => resolve_drop_nil ms [] (anext a) false e) as D. cbn [app] in D. rewrite D in F, N.
   split; [exact F|exact N].
@@ -259,46 +276,52 @@ Lemma grow_rest_trans_nil r1 r2 r3 :
 Proof. intros Hs H1 H2. exact (grow_rest_trans r1 [] [] r2 r3 Hs H1 H2). Qed.
 
 Lemma run_ok_func ps b k :
-  pcore_x ps = true -> disjointb (default_names ps) (vardecls b ++ lexdecls b) = true -> headdecls b = [] ->
+  pcore_x ps = true -> headdecls b = [] ->
   (forall x, In x (headdecls k) -> ~ In x (allnames ps ++ allnames b)) ->
   run_ok ps -> run_ok b -> run_ok k -> run_ok (Func None ps b k).
 Proof.
-  intros Hps Hdis Hb0 Hkfresh IHps IHb IHk a fr pr rest A Hnd Hlex Hvar Hndh Hhead Hok.
+  intros Hps Hb0 Hkfresh IHps IHb IHk a fr pr rest A Hnd Hlex Hvar Hndh Hhead Hok.
   cbn [lexdecls] in Hnd, Hlex. cbn [vardecls] in Hvar. cbn [headdecls] in Hndh, Hhead. cbn [spec_ok] in Hok.
   apply andb_true_iff in Hok. destruct Hok as [Hok Hokk]. apply andb_true_iff in Hok. destruct Hok as [Hok Hokb].
   apply andb_true_iff in Hok. destruct Hok as [Hok Hokps]. apply andb_true_iff in Hok. destruct Hok as [Hndp Hsc].
   apply nodupb_NoDup in Hndp. destruct (scope_ok_spec (headdecls ps) b Hsc) as (Hndb & Hlv & Hlh).
-  pose proof (disjointb_spec _ _ Hdis) as Hdis'.
   destruct (pcore_x_lexvar ps Hps) as [Epl Epv].
-  set (prF := mkPr (lexdecls b) (headdecls ps ++ vardecls b)).
+  (* what the scope promises while the parameter list runs, and from the mark on *)
+  set (prP := mkPr [] (headdecls ps) false).
+  set (prF := mkPr (lexdecls b) (headdecls ps ++ vardecls b) true).
+  assert (EpnP : pnames prP = headdecls ps) by (unfold pnames; cbn [pvar plex prP]; apply app_nil_r).
   assert (Epn : pnames prF = headdecls ps ++ vardecls b ++ lexdecls b).
   { unfold pnames. cbn [pvar plex prF]. rewrite <- app_assoc. reflexivity. }
-  destruct (L_enter a ((fr, pr) :: rest) true prF A) as (a1 & H1 & A1 & El1 & En1).
+  assert (HdisjF : forall y, In y (plex prF) -> ~ In y (pvar prF)).
   { intros y Hy Hi. cbn [pvar prF] in Hi. apply in_app_iff in Hi. destruct Hi as [Hi|Hi]; [apply (Hlh y Hy Hi)|apply (Hlv y Hy Hi)]. }
+  destruct (L_enter a ((fr, pr) :: rest) true prP A) as (a1 & H1 & A1 & El1 & En1).
+  { intros y []. }
   set (F0 := mkF (anext a) true [] [] O O) in *.
   (* the parameter list *)
-  destruct (IHps a1 F0 prF ((fr, pr) :: rest) A1) as (a2 & F2 & z2 & R2 & A2 & G2 & _ & _ & P3p & P4p & Fp & Np).
+  destruct (IHps a1 F0 prP ((fr, pr) :: rest) A1) as (a2 & F2 & z2 & R2 & A2 & G2 & _ & _ & P3p & P4p & _ & Fp & Np).
   { rewrite Epl. constructor. } { rewrite Epl. intros y []. } { rewrite Epv. intros y []. } { exact Hndp. }
-  { intros y Hy. split; [cbn [pvar prF]; apply in_app_iff; left; exact Hy|]. split; intros []. }
+  { intros y Hy. split; [exact Hy|]. split; intros []. }
   { exact Hokps. }
-  pose proof (grow_shape _ _ _ _ G2) as Hs2. cbn [shape map fst snd] in Hs2. injection Hs2 as HfidF2 HfF2 Hs2.
+  pose proof (grow_shape _ _ _ _ G2) as Hs2. pose proof Hs2 as Hs2full.
+  cbn [shape map fst snd] in Hs2. injection Hs2 as HfidF2 HfF2 Hs2.
   cbn [fid fisfunc F0] in HfidF2, HfF2.
   assert (Hs2z : shape z2 = shape ((fr, pr) :: rest)) by exact Hs2.
-  destruct G2 as [_ (G2i & G2b & G2r)]. assert (Eb0 : below (vardecls ps) (F0, prF) = []) by reflexivity. rewrite Eb0 in G2r.
+  destruct G2 as [_ (G2i & G2b & G2r)]. assert (Eb0 : below (vardecls ps) (F0, prP) = []) by reflexivity. rewrite Eb0 in G2r.
   unfold dn in G2i, G2b. cbn [fst dnames fdecl F0 map] in G2i, G2b. rewrite Epl, Epv in G2b. cbn [app] in G2b.
-  (* the uses made by the default values are of names the function does not declare *)
+  (* MarkFuncArgs: the uses made by the default values are of names other than the parameters *)
   destruct (A_frames _ _ A2) as [KF2 _].
-  assert (Hargs : forall y, In (UPend y) (fund F2) -> ~ In y (pnames prF)).
-  { intros y Hy Hin. destruct (P4p y Hy) as [[]|Hall].
-    destruct (pcore_x_allnames ps Hps y Hall) as [Hh|Hd].
-    - apply (K_pend _ _ _ KF2 y Hy). apply P3p. exact Hh.
-    - rewrite Epn in Hin. apply in_app_iff in Hin. destruct Hin as [Hin|Hin].
-      + apply (K_pend _ _ _ KF2 y Hy). apply P3p. exact Hin.
-      + apply (Hdis' y Hd Hin). }
-  destruct (L_mark a2 F2 prF z2 A2 Hargs) as (a2m & F2m & Hm & A2m & M1 & M2 & M3 & M4 & M5 & M6).
+  assert (Hargs : forall y, In (UPend y) (fund F2) -> ~ In y (pnames prP)).
+  { intros y Hy Hin. rewrite EpnP in Hin. apply (K_pend _ _ _ KF2 y Hy). apply P3p. exact Hin. }
+  destruct (L_mark_gen a2 F2 prP prF z2 fnfor A2 eq_refl eq_refl (K_for _ _ _ KF2) Hargs)
+    as (a2m & F2m & Hm & A2m & M1 & M2 & M3 & M4 & _ & M5 & M6).
+  { intros y k0 Hy. destruct (K_decl _ _ _ KF2 y k0 Hy) as [Q1 Q2]. split.
+    - rewrite EpnP in Q1. rewrite Epn. apply in_app_iff. left. exact Q1.
+    - intros Hk. destruct (Q2 Hk). }
+  { exact HdisjF. }
+  { intros y fs Hy. destruct (K_pass _ _ _ KF2 y fs Hy) as [Hf _]. rewrite HfF2 in Hf. discriminate. }
   assert (EdnM : dnames F2m = dnames F2) by (unfold dnames; rewrite M3; reflexivity).
   (* the body *)
-  destruct (IHb a2m F2m prF z2 A2m Hndb) as (a3 & F' & z3 & R3 & A3 & G3 & P1b & P2b & _ & P4b & F3 & N3).
+  destruct (IHb a2m F2m prF z2 A2m Hndb) as (a3 & F' & z3 & R3 & A3 & G3 & P1b & P2b & _ & P4b & P5b & F3 & N3).
   { intros y Hy. split; [exact Hy|]. rewrite EdnM. intros Hi. destruct (G2b y Hi) as [[]|[Hi'|[]]].
     apply (Hlh y Hy). exact Hi'. }
   { intros y Hy. cbn [var_ok]. rewrite M2, HfF2. cbn [pvar prF]. apply in_app_iff. right. exact Hy. }
@@ -314,38 +337,37 @@ Proof.
   assert (HfidF'a : fid F' = anext a) by congruence.
   assert (HfF'true : fisfunc F' = true) by congruence.
   (* the environments as the resolver writes them *)
-  assert (Eenv0 : env_of ((F0, prF) :: (fr, pr) :: rest)
-                  = (anext a, false, headdecls ps ++ vardecls b ++ lexdecls b) :: env_of ((fr, pr) :: rest)).
-  { cbn [env_of map fst snd]. rewrite Epn. reflexivity. }
+  assert (Eenv0 : env_of ((F0, prP) :: (fr, pr) :: rest) = (anext a, false, headdecls ps) :: env_of ((fr, pr) :: rest)).
+  { cbn [env_of map fst snd]. rewrite EpnP. reflexivity. }
+  assert (EenvP2 : env_of ((F2, prP) :: z2) = (anext a, false, headdecls ps) :: env_of ((fr, pr) :: rest)).
+  { rewrite (env_of_shape _ _ Hs2full). exact Eenv0. }
   assert (Eenv2 : env_of ((F2m, prF) :: z2) = (anext a, false, headdecls ps ++ vardecls b ++ lexdecls b) :: env_of ((fr, pr) :: rest)).
   { cbn [env_of map fst snd]. rewrite M1, HfidF2, Epn. f_equal. apply (env_of_shape _ _ Hs2z). }
   assert (Efun2 : func_of ((F2m, prF) :: z2) = anext a) by (cbn [func_of]; rewrite M2, HfF2, M1; exact HfidF2).
-  assert (Efun0 : func_of ((F0, prF) :: (fr, pr) :: rest) = anext a) by reflexivity.
+  assert (Efun0 : func_of ((F0, prP) :: (fr, pr) :: rest) = anext a) by reflexivity.
   rewrite Eenv0, Efun0, El1, En1 in Fp. rewrite Eenv0, Efun0, En1 in Np. cbn [fid F0] in Fp, Np.
-  (* the parameter list resolved in the scope of the parameters only *)
-  assert (Eirr : resolve_m ((anext a, false, headdecls ps ++ vardecls b ++ lexdecls b) :: env_of ((fr, pr) :: rest))
-                         (anext a) (anext a) false (S (anext a)) ps
-                 = resolve_m ((anext a, false, headdecls ps) :: env_of ((fr, pr) :: rest)) (anext a) (anext a) false (S (anext a)) ps).
-  { apply (resolve_irrelevant ps [] (anext a) false (headdecls ps) (vardecls b ++ lexdecls b)).
-    intros y Hy Hx. destruct (pcore_x_allnames ps Hps y Hy) as [Hh|Hd]; [exact Hh|]. exfalso. apply (Hdis' y Hd Hx). }
-  rewrite Eirr in Fp, Np.
+  rewrite (final_push2 a ((fr, pr) :: rest) (anext a) (headdecls ps) (headdecls ps ++ vardecls b ++ lexdecls b) A (le_n _)) in Fp.
   remember (resolve_m ((anext a, false, headdecls ps) :: env_of ((fr, pr) :: rest)) (anext a) (anext a) false (S (anext a)) ps) as RP eqn:HeqRP.
-  rewrite Eenv2, Efun2, M1, HfidF2, M6, Np in F3, N3. rewrite M5, Fp in F3.
+  rewrite M5, EenvP2, Fp in F3.
+  rewrite Eenv2, Efun2, M1, HfidF2, M6, Np in F3, N3.
   remember (resolve_m ((anext a, false, headdecls ps ++ vardecls b ++ lexdecls b) :: env_of ((fr, pr) :: rest))
                     (anext a) (anext a) false (snd RP) b) as RB eqn:HeqRB.
   assert (Hle : (anext a <= snd RB)%nat).
   { rewrite <- N3. destruct A3 as [_ _ An _]. pose proof (An (F', prF) (or_introl eq_refl)) as H. cbn [fst] in H. lia. }
   destruct (after_scope k [] IHk a fr pr rest a3 F' prF P' rest1 (headdecls ps ++ vardecls b ++ lexdecls b)
               (fst RP ++ fst RB) (snd RB) (allnames ps ++ allnames b) A A3 HfidF'a Epn Hs3z)
-    as (a' & fr' & rest' & R & A' & G & P1 & P2 & Pf & P3 & P4 & F & N).
+    as (a' & fr' & rest' & R & A' & G & P1 & P2 & Pf & P3 & P4 & P5 & F & N).
   { rewrite Eb'. exact Gp. }
   { rewrite !Eb'. rewrite Eb' in Gr. exact Gr. }
   { intros y Hy. rewrite Epn in Hy. apply in_app_iff in Hy. destruct Hy as [Hy|Hy].
     - apply G3i. unfold dn. cbn [fst]. rewrite EdnM. apply P3p. exact Hy.
     - apply in_app_iff in Hy. destruct Hy as [Hy|Hy]; [|apply P1b; exact Hy].
       specialize (P2b y Hy). cbn [func_dnames] in P2b. rewrite HfF'true in P2b. exact P2b. }
-  { intros y Hy. apply in_app_iff. destruct (P4b y Hy) as [H|H]; [|right; exact H].
-    rewrite M4 in H. destruct (P4p y H) as [[]|H']. left. exact H'. }
+  { intros y [Hy|Hy]; apply in_app_iff.
+    - destruct (P4b y Hy) as [H|H]; [|right; exact H]. rewrite M4 in H. destruct (to_args_no_pend _ _ H).
+    - left. specialize (P5b y Hy). rewrite M4 in P5b. destruct (to_args_uarg _ _ P5b) as [H|H].
+      + destruct (P4p y H) as [[]|H']. exact H'.
+      + destruct (no_uarg_unmarked _ _ _ y KF2 eq_refl H). }
   { rewrite F3, rev_app_distr, <- app_assoc. reflexivity. }
   { exact N3. }
   { exact Hle. }
@@ -358,12 +380,13 @@ Proof.
   { exact Hokk. }
   exists a', fr', rest'. split.
   { cbn [linearise app arun astep]. rewrite H1. rewrite arun_app, R2.
-    cbn [arun astep]. rewrite Hm. rewrite arun_app, R3. exact R. }
+    cbn [arun astep]. unfold a_mark_args. rewrite Hm. rewrite arun_app, R3. exact R. }
   split; [exact A'|]. split; [cbn [lexdecls headdecls vardecls]; rewrite Eb' in G; exact G|]. split; [exact P1|]. split; [exact P2|].
   split; [cbn [headdecls]; exact P3|]. split.
   { intros y Hy. cbn [allnames app]. destruct (P4 y Hy) as [H|[H|H]]; [left; exact H|right|right].
     - apply in_app_iff in H. destruct H as [H|H]; [apply in_app_iff; left; exact H|apply in_app_iff; right; apply in_app_iff; left; exact H].
     - apply in_app_iff. right. apply in_app_iff. right. exact H. }
+  split; [exact P5|].
   cbn [resolve_m]. rewrite <- HeqRP. destruct RP as [rp n1]. cbn [fst snd] in *. rewrite <- HeqRB. destruct RB as [rb n2]. cbn [fst snd] in *.
   destruct (resolve_m (env_of ((fr, pr) :: rest)) (func_of ((fr, pr) :: rest)) (fid fr) false n2 k) as [rk n3].
   cbn [fst snd app] in *. split; [|exact N]. rewrite F. rewrite !rev_app_distr, <- !app_assoc. reflexivity.
@@ -371,66 +394,72 @@ Qed.
 
 (* a function expression with a name: the name is declared first (ExprDecl), in the function's own Scope *)
 Lemma run_ok_func_some g ps b k :
-  pcore_x ps = true -> disjointb (default_names ps) (vardecls b ++ lexdecls b) = true -> headdecls b = [] ->
+  pcore_x ps = true -> headdecls b = [] ->
   ~ In g (headdecls ps ++ vardecls b ++ lexdecls b) ->
   (forall x, In x (headdecls k) -> ~ In x (g :: allnames ps ++ allnames b)) ->
   run_ok ps -> run_ok b -> run_ok k -> run_ok (Func (Some g) ps b k).
 Proof.
-  intros Hps Hdis Hb0 Hg Hkfresh IHps IHb IHk a fr pr rest A Hnd Hlex Hvar Hndh Hhead Hok.
+  intros Hps Hb0 Hg Hkfresh IHps IHb IHk a fr pr rest A Hnd Hlex Hvar Hndh Hhead Hok.
   cbn [lexdecls] in Hnd, Hlex. cbn [vardecls] in Hvar. cbn [headdecls] in Hndh, Hhead. cbn [spec_ok] in Hok.
   apply andb_true_iff in Hok. destruct Hok as [Hok Hokk]. apply andb_true_iff in Hok. destruct Hok as [Hok Hokb].
   apply andb_true_iff in Hok. destruct Hok as [Hok Hokps]. apply andb_true_iff in Hok. destruct Hok as [Hndp Hsc].
   apply nodupb_NoDup in Hndp. destruct (scope_ok_spec (headdecls ps) b Hsc) as (Hndb & Hlv & Hlh).
-  pose proof (disjointb_spec _ _ Hdis) as Hdis'.
   destruct (pcore_x_lexvar ps Hps) as [Epl Epv].
   assert (Hgp : ~ In g (headdecls ps)) by (intros H; apply Hg; apply in_app_iff; left; exact H).
   assert (Hgb : ~ In g (vardecls b ++ lexdecls b)) by (intros H; apply Hg; apply in_app_iff; right; exact H).
-  set (prF := mkPr (lexdecls b ++ [g]) (headdecls ps ++ vardecls b)).
+  set (prP := mkPr [g] (headdecls ps) false).
+  set (prF := mkPr (lexdecls b ++ [g]) (headdecls ps ++ vardecls b) true).
+  assert (EpnP : pnames prP = headdecls ps ++ [g]) by reflexivity.
   assert (Epn : pnames prF = headdecls ps ++ vardecls b ++ lexdecls b ++ [g]).
   { unfold pnames. cbn [pvar plex prF]. rewrite <- app_assoc. reflexivity. }
-  destruct (L_enter a ((fr, pr) :: rest) true prF A) as (a0 & H0 & A0 & El0 & En0).
+  assert (HdisjF : forall y, In y (plex prF) -> ~ In y (pvar prF)).
   { intros y Hy Hi. cbn [pvar prF plex] in Hi, Hy. apply in_app_iff in Hy. destruct Hy as [Hy|[<-|[]]].
     - apply in_app_iff in Hi. destruct Hi as [Hi|Hi]; [apply (Hlh y Hy Hi)|apply (Hlv y Hy Hi)].
     - apply Hg. apply in_app_iff in Hi. apply in_app_iff. destruct Hi as [Hi|Hi]; [left; exact Hi|right; apply in_app_iff; left; exact Hi]. }
+  destruct (L_enter a ((fr, pr) :: rest) true prP A) as (a0 & H0 & A0 & El0 & En0).
+  { intros y [<-|[]]. exact Hgp. }
   set (F00 := mkF (anext a) true [] [] O O) in *.
   (* the name *)
-  destruct (L_decl_top a0 F00 prF ((fr, pr) :: rest) ExprDecl g A0 (or_intror (or_intror (or_intror eq_refl))))
+  destruct (L_decl_top a0 F00 prP ((fr, pr) :: rest) ExprDecl g A0 (or_intror (or_intror (or_intror eq_refl))))
     as (a1 & F0 & H1 & A1 & D1 & D2 & D3 & D4 & D5 & D6).
   { intros []. }
-  { rewrite Epn. apply in_app_iff. right. apply in_app_iff. right. apply in_app_iff. right. left. reflexivity. }
-  { intros _. cbn [plex prF]. apply in_app_iff. right. left. reflexivity. }
+  { rewrite EpnP. apply in_app_iff. right. left. reflexivity. }
+  { intros _. left. reflexivity. }
   { discriminate. }
   cbn [fid fisfunc dnames fdecl fund F00 map app] in D1, D2, D3, D4.
   assert (En1 : anext a1 = S (anext a)) by congruence.
   (* the parameter list *)
-  destruct (IHps a1 F0 prF ((fr, pr) :: rest) A1) as (a2 & F2 & z2 & R2 & A2 & G2 & _ & _ & P3p & P4p & Fp & Np).
+  destruct (IHps a1 F0 prP ((fr, pr) :: rest) A1) as (a2 & F2 & z2 & R2 & A2 & G2 & _ & _ & P3p & P4p & _ & Fp & Np).
   { rewrite Epl. constructor. } { rewrite Epl. intros y []. } { rewrite Epv. intros y []. } { exact Hndp. }
-  { intros y Hy. split; [cbn [pvar prF]; apply in_app_iff; left; exact Hy|]. split.
+  { intros y Hy. split; [exact Hy|]. split.
     - rewrite D3. intros [<-|[]]. apply Hgp. exact Hy.
     - intros Hi. destruct (D4 _ Hi). }
   { exact Hokps. }
-  pose proof (grow_shape _ _ _ _ G2) as Hs2. cbn [shape map fst snd] in Hs2. injection Hs2 as HfidF2 HfF2 Hs2.
+  pose proof (grow_shape _ _ _ _ G2) as Hs2. pose proof Hs2 as Hs2full.
+  cbn [shape map fst snd] in Hs2. injection Hs2 as HfidF2 HfF2 Hs2.
   rewrite D1 in HfidF2. rewrite D2 in HfF2.
   assert (Hs2z : shape z2 = shape ((fr, pr) :: rest)) by exact Hs2.
   destruct G2 as [_ (G2i & G2b & G2r)].
-  assert (Eb0 : below (vardecls ps) (F0, prF) = []) by (unfold below; cbn [fst]; rewrite D2; reflexivity). rewrite Eb0 in G2r.
+  assert (Eb0 : below (vardecls ps) (F0, prP) = []) by (unfold below; cbn [fst]; rewrite D2; reflexivity). rewrite Eb0 in G2r.
   unfold dn in G2i, G2b. cbn [fst] in G2i, G2b. rewrite D3 in G2i, G2b. rewrite Epl, Epv in G2b. cbn [app] in G2b.
   assert (HgF2 : In g (dnames F2)) by (apply G2i; left; reflexivity).
-  (* the uses made by the default values are of names the function does not declare *)
+  (* MarkFuncArgs: the uses made by the default values are of names other than the parameters and the name *)
   destruct (A_frames _ _ A2) as [KF2 _].
-  assert (Hargs : forall y, In (UPend y) (fund F2) -> ~ In y (pnames prF)).
-  { intros y Hy Hin. destruct (P4p y Hy) as [H'|Hall]; [destruct (D4 _ H')|].
-    destruct (pcore_x_allnames ps Hps y Hall) as [Hh|Hd].
-    - apply (K_pend _ _ _ KF2 y Hy). apply P3p. exact Hh.
-    - rewrite Epn in Hin. apply in_app_iff in Hin. destruct Hin as [Hin|Hin].
-      + apply (K_pend _ _ _ KF2 y Hy). apply P3p. exact Hin.
-      + rewrite app_assoc in Hin. apply in_app_iff in Hin. destruct Hin as [Hin|[<-|[]]].
-        * apply (Hdis' y Hd Hin).
-        * apply (K_pend _ _ _ KF2 g Hy). exact HgF2. }
-  destruct (L_mark a2 F2 prF z2 A2 Hargs) as (a2m & F2m & Hm & A2m & M1 & M2 & M3 & M4 & M5 & M6).
+  assert (Hargs : forall y, In (UPend y) (fund F2) -> ~ In y (pnames prP)).
+  { intros y Hy Hin. rewrite EpnP in Hin. apply in_app_iff in Hin. destruct Hin as [Hin|[<-|[]]].
+    - apply (K_pend _ _ _ KF2 y Hy). apply P3p. exact Hin.
+    - apply (K_pend _ _ _ KF2 g Hy). exact HgF2. }
+  destruct (L_mark_gen a2 F2 prP prF z2 fnfor A2 eq_refl eq_refl (K_for _ _ _ KF2) Hargs)
+    as (a2m & F2m & Hm & A2m & M1 & M2 & M3 & M4 & _ & M5 & M6).
+  { intros y k0 Hy. destruct (K_decl _ _ _ KF2 y k0 Hy) as [Q1 Q2]. split.
+    - rewrite EpnP in Q1. rewrite Epn. apply in_app_iff in Q1. apply in_app_iff. destruct Q1 as [Q1|Q1]; [left; exact Q1|right].
+      apply in_app_iff. right. apply in_app_iff. right. exact Q1.
+    - intros Hk. specialize (Q2 Hk). cbn [plex prP prF] in *. apply in_app_iff. right. exact Q2. }
+  { exact HdisjF. }
+  { intros y fs Hy. destruct (K_pass _ _ _ KF2 y fs Hy) as [Hf _]. rewrite HfF2 in Hf. discriminate. }
   assert (EdnM : dnames F2m = dnames F2) by (unfold dnames; rewrite M3; reflexivity).
   (* the body *)
-  destruct (IHb a2m F2m prF z2 A2m Hndb) as (a3 & F' & z3 & R3 & A3 & G3 & P1b & P2b & _ & P4b & F3 & N3).
+  destruct (IHb a2m F2m prF z2 A2m Hndb) as (a3 & F' & z3 & R3 & A3 & G3 & P1b & P2b & _ & P4b & P5b & F3 & N3).
   { intros y Hy. split; [cbn [plex prF]; apply in_app_iff; left; exact Hy|]. rewrite EdnM. intros Hi. destruct (G2b y Hi) as [[<-|[]]|[Hi'|[]]].
     - apply Hgb. apply in_app_iff. right. exact Hy.
     - apply (Hlh y Hy). exact Hi'. }
@@ -447,38 +476,28 @@ Proof.
   assert (HfidF'a : fid F' = anext a) by congruence.
   assert (HfF'true : fisfunc F' = true) by congruence.
   (* the environments as the resolver writes them *)
-  assert (Eenv00 : env_of ((F00, prF) :: (fr, pr) :: rest)
-                  = (anext a, false, headdecls ps ++ vardecls b ++ lexdecls b ++ [g]) :: env_of ((fr, pr) :: rest)).
-  { cbn [env_of map fst snd]. rewrite Epn. reflexivity. }
-  assert (Eenv0 : env_of ((F0, prF) :: (fr, pr) :: rest)
-                  = (anext a, false, headdecls ps ++ vardecls b ++ lexdecls b ++ [g]) :: env_of ((fr, pr) :: rest)).
-  { cbn [env_of map fst snd]. rewrite D1, Epn. reflexivity. }
+  assert (Eenv00 : env_of ((F00, prP) :: (fr, pr) :: rest) = (anext a, false, headdecls ps ++ [g]) :: env_of ((fr, pr) :: rest)) by reflexivity.
+  assert (Eenv0 : env_of ((F0, prP) :: (fr, pr) :: rest) = (anext a, false, headdecls ps ++ [g]) :: env_of ((fr, pr) :: rest)).
+  { cbn [env_of map fst snd]. rewrite D1. reflexivity. }
+  assert (EenvP2 : env_of ((F2, prP) :: z2) = (anext a, false, headdecls ps ++ [g]) :: env_of ((fr, pr) :: rest)).
+  { rewrite (env_of_shape _ _ Hs2full). exact Eenv0. }
   assert (Eenv2 : env_of ((F2m, prF) :: z2) = (anext a, false, headdecls ps ++ vardecls b ++ lexdecls b ++ [g]) :: env_of ((fr, pr) :: rest)).
   { cbn [env_of map fst snd]. rewrite M1, HfidF2, Epn. f_equal. apply (env_of_shape _ _ Hs2z). }
   assert (Efun2 : func_of ((F2m, prF) :: z2) = anext a) by (cbn [func_of]; rewrite M2, HfF2, M1; exact HfidF2).
-  assert (Efun0 : func_of ((F0, prF) :: (fr, pr) :: rest) = anext a) by (cbn [func_of]; rewrite D2; exact D1).
+  assert (Efun0 : func_of ((F0, prP) :: (fr, pr) :: rest) = anext a) by (cbn [func_of]; rewrite D2; exact D1).
   rewrite Eenv00, El0 in D6. cbn [fid F00] in D6.
   rewrite Eenv0, Efun0, D6, En1 in Fp. rewrite Eenv0, Efun0, En1 in Np. rewrite D1 in Fp, Np.
-  (* the parameter list resolved in the scope of the parameters only *)
-  assert (Eirr : resolve_m ((anext a, false, headdecls ps ++ vardecls b ++ lexdecls b ++ [g]) :: env_of ((fr, pr) :: rest))
-                         (anext a) (anext a) false (S (anext a)) ps
-                 = resolve_m ((anext a, false, headdecls ps ++ [g]) :: env_of ((fr, pr) :: rest)) (anext a) (anext a) false (S (anext a)) ps).
-  { apply (resolve_m_ext ps [] (anext a) false).
-    intros y Hy. rewrite !mem_app. destruct (pcore_x_allnames ps Hps y Hy) as [Hh|Hd].
-    - apply mem_in in Hh. rewrite Hh. reflexivity.
-    - assert (E1 : mem y (vardecls b) = false) by (apply mem_not_in; intros Hi; apply (Hdis' y Hd); apply in_app_iff; left; exact Hi).
-      assert (E2 : mem y (lexdecls b) = false) by (apply mem_not_in; intros Hi; apply (Hdis' y Hd); apply in_app_iff; right; exact Hi).
-      rewrite E1, E2. reflexivity. }
-  rewrite Eirr in Fp, Np.
+  rewrite (final_push2 a ((fr, pr) :: rest) (anext a) (headdecls ps ++ [g]) (headdecls ps ++ vardecls b ++ lexdecls b ++ [g]) A (le_n _)) in Fp.
   remember (resolve_m ((anext a, false, headdecls ps ++ [g]) :: env_of ((fr, pr) :: rest)) (anext a) (anext a) false (S (anext a)) ps) as RP eqn:HeqRP.
-  rewrite Eenv2, Efun2, M1, HfidF2, M6, Np in F3, N3. rewrite M5, Fp in F3.
+  rewrite M5, EenvP2, Fp in F3.
+  rewrite Eenv2, Efun2, M1, HfidF2, M6, Np in F3, N3.
   remember (resolve_m ((anext a, false, headdecls ps ++ vardecls b ++ lexdecls b ++ [g]) :: env_of ((fr, pr) :: rest))
                     (anext a) (anext a) false (snd RP) b) as RB eqn:HeqRB.
   assert (Hle : (anext a <= snd RB)%nat).
   { rewrite <- N3. destruct A3 as [_ _ An _]. pose proof (An (F', prF) (or_introl eq_refl)) as H. cbn [fst] in H. lia. }
   destruct (after_scope k [] IHk a fr pr rest a3 F' prF P' rest1 (headdecls ps ++ vardecls b ++ lexdecls b ++ [g])
               (TBind (anext a) false g :: fst RP ++ fst RB) (snd RB) (g :: allnames ps ++ allnames b) A A3 HfidF'a Epn Hs3z)
-    as (a' & fr' & rest' & R & A' & G & P1 & P2 & Pf & P3 & P4 & F & N).
+    as (a' & fr' & rest' & R & A' & G & P1 & P2 & Pf & P3 & P4 & P5 & F & N).
   { rewrite Eb'. exact Gp. }
   { rewrite !Eb'. rewrite Eb' in Gr. exact Gr. }
   { intros y Hy. rewrite Epn in Hy. apply in_app_iff in Hy. destruct Hy as [Hy|Hy].
@@ -487,8 +506,11 @@ Proof.
       + specialize (P2b y Hy). cbn [func_dnames] in P2b. rewrite HfF'true in P2b. exact P2b.
       + apply in_app_iff in Hy. destruct Hy as [Hy|[<-|[]]]; [apply P1b; exact Hy|].
         apply G3i. unfold dn. cbn [fst]. rewrite EdnM. exact HgF2. }
-  { intros y Hy. right. apply in_app_iff. destruct (P4b y Hy) as [H|H]; [|right; exact H].
-    rewrite M4 in H. destruct (P4p y H) as [H'|H']; [destruct (D4 _ H')|]. left. exact H'. }
+  { intros y [Hy|Hy]; right; apply in_app_iff.
+    - destruct (P4b y Hy) as [H|H]; [|right; exact H]. rewrite M4 in H. destruct (to_args_no_pend _ _ H).
+    - left. specialize (P5b y Hy). rewrite M4 in P5b. destruct (to_args_uarg _ _ P5b) as [H|H].
+      + destruct (P4p y H) as [H'|H']; [destruct (D4 _ H')|exact H'].
+      + destruct (no_uarg_unmarked _ _ _ y KF2 eq_refl H). }
   { rewrite F3. cbn [rev]. rewrite rev_app_distr, <- !app_assoc. reflexivity. }
   { exact N3. }
   { exact Hle. }
@@ -501,18 +523,18 @@ Proof.
   { exact Hokk. }
   exists a', fr', rest'. split.
   { cbn [linearise app arun astep]. rewrite H0. cbn [Z.eqb ExprDecl NoDecl]. rewrite H1. rewrite arun_app, R2.
-    cbn [arun astep]. rewrite Hm. rewrite arun_app, R3. exact R. }
+    cbn [arun astep]. unfold a_mark_args. rewrite Hm. rewrite arun_app, R3. exact R. }
   split; [exact A'|]. split; [cbn [lexdecls headdecls vardecls]; rewrite Eb' in G; exact G|]. split; [exact P1|]. split; [exact P2|].
   split; [cbn [headdecls]; exact P3|]. split.
   { intros y Hy. cbn [allnames app]. destruct (P4 y Hy) as [H|[H|H]]; [left; exact H|right|right].
     - destruct H as [<-|H]; [left; reflexivity|right].
       apply in_app_iff in H. destruct H as [H|H]; [apply in_app_iff; left; exact H|apply in_app_iff; right; apply in_app_iff; left; exact H].
     - right. apply in_app_iff. right. apply in_app_iff. right. exact H. }
+  split; [exact P5|].
   cbn [resolve_m]. rewrite <- HeqRP. destruct RP as [rp n1]. cbn [fst snd] in *. rewrite <- HeqRB. destruct RB as [rb n2]. cbn [fst snd] in *.
   destruct (resolve_m (env_of ((fr, pr) :: rest)) (func_of ((fr, pr) :: rest)) (fid fr) false n2 k) as [rk n3].
   cbn [fst snd app] in *. split; [|exact N]. rewrite F. cbn [rev]. rewrite !rev_app_distr, <- !app_assoc. reflexivity.
 Qed.
-
 
 Lemma run_ok_arrow ps b k : run_ok (Func None ps b k) -> run_ok (Arrow ps b k).
 Proof. intros H a fr pr rest. exact (H a fr pr rest). Qed.
@@ -576,16 +598,32 @@ Proof.
   apply andb_true_iff in Hok. destruct Hok as [Hok _]. apply andb_true_iff in Hok. destruct Hok as [Hndp Hsc].
   apply nodupb_NoDup in Hndp. destruct (scope_ok_spec (headdecls hd) b Hsc) as (Hndb & Hlv & Hlh).
   pose proof (disjointb_spec _ _ Hdisj) as Hhv.
-  set (prC := mkPr (headdecls hd ++ lexdecls b) []).
-  destruct (L_enter a ((fr, pr) :: rest) false prC A) as (a1 & H1 & A1 & El1 & En1).
+  set (prH := mkPr (headdecls hd) [] false).
+  set (prC := mkPr (headdecls hd ++ lexdecls b) [] true).
+  assert (EpnH : pnames prH = headdecls hd) by reflexivity.
+  assert (Epn : pnames prC = headdecls hd ++ lexdecls b) by reflexivity.
+  destruct (L_enter a ((fr, pr) :: rest) false prH A) as (a1 & H1 & A1 & El1 & En1).
   { intros y _ []. }
   set (C0 := mkF (anext a) false [] [] O O) in *.
-  destruct (run_catch_params (headdecls hd) a1 C0 prC ((fr, pr) :: rest) A1 Hndp) as (a2 & C2 & R2 & A2 & E1 & E2 & E3 & E4 & En2 & Fp).
-  { intros y Hy. split; [cbn [plex prC]; apply in_app_iff; left; exact Hy|intros []]. }
+  destruct (run_catch_params (headdecls hd) a1 C0 prH ((fr, pr) :: rest) A1 Hndp) as (a2 & C2 & R2 & A2 & E1 & E2 & E3 & E4 & En2 & Fp).
+  { intros y Hy. split; [exact Hy|intros []]. }
   cbn [fid fisfunc C0] in E1, E2. cbn [dnames fdecl C0 map app] in E3. cbn [fund C0] in E4.
-  destruct (IHb a2 C2 prC ((fr, pr) :: rest) A2 Hndb) as (a3 & C' & z1 & R3 & A3 & G3 & P1b & P2b & _ & P4b & F3 & N3).
-  { intros y Hy. split; [cbn [plex prC]; apply in_app_iff; right; exact Hy|]. rewrite E3. apply Hlh. exact Hy. }
-  { intros y Hy. cbn [var_ok]. rewrite E2. split.
+  (* the mark after the catch parameter: nothing has been used yet *)
+  destruct (A_frames _ _ A2) as [KC2 _].
+  destruct (L_mark_gen a2 C2 prH prC ((fr, pr) :: rest) fnfor A2 eq_refl eq_refl (K_for _ _ _ KC2))
+    as (a2m & C2m & Hm & A2m & M1 & M2 & M3 & M4 & _ & M5 & M6).
+  { intros y Hy. destruct (E4 _ Hy). }
+  { intros y k0 Hy. destruct (K_decl _ _ _ KC2 y k0 Hy) as [Q1 Q2]. split.
+    - rewrite EpnH in Q1. rewrite Epn. apply in_app_iff. left. exact Q1.
+    - intros Hk. specialize (Q2 Hk). cbn [plex prH prC] in *. apply in_app_iff. left. exact Q2. }
+  { intros y _ []. }
+  { intros y fs Hy. destruct (E4 _ Hy). }
+  assert (EdnM : dnames C2m = headdecls hd) by (unfold dnames; rewrite M3; exact E3).
+  assert (EfM : fund C2m = []).
+  { rewrite M4. destruct (fund C2) as [|e l]; [reflexivity|destruct (E4 e (or_introl eq_refl))]. }
+  destruct (IHb a2m C2m prC ((fr, pr) :: rest) A2m Hndb) as (a3 & C' & z1 & R3 & A3 & G3 & P1b & P2b & _ & P4b & P5b & F3 & N3).
+  { intros y Hy. split; [cbn [plex prC]; apply in_app_iff; right; exact Hy|]. rewrite EdnM. apply Hlh. exact Hy. }
+  { intros y Hy. cbn [var_ok]. rewrite M2, E2. split.
     - unfold pnames. cbn [pvar plex prC app]. intros Hi. apply in_app_iff in Hi. destruct Hi as [Hi|Hi]; [apply (Hhv y Hi Hy)|apply (Hlv y Hi Hy)].
     - apply Hvar. apply in_app_iff. left. exact Hy. }
   { rewrite Hb0. constructor. } { rewrite Hb0. intros y []. }
@@ -593,31 +631,37 @@ Proof.
   pose proof (grow_shape _ _ _ _ G3) as Hs3. cbn [shape map fst snd] in Hs3. injection Hs3 as HfidC HfC Hs3.
   destruct (shape_cons_inv z1 fr pr rest Hs3) as (P' & rest1 & -> & _ & _ & _).
   destruct G3 as [_ (G3i & G3b & G3r)]. cbn [grow_rest] in G3r. destruct G3r as [Gp Gr].
-  assert (Eb2 : below (vardecls b) (C2, prC) = vardecls b) by (unfold below; cbn [fst]; rewrite E2; reflexivity).
+  assert (Eb2 : below (vardecls b) (C2m, prC) = vardecls b) by (unfold below; cbn [fst]; rewrite M2, E2; reflexivity).
   rewrite Eb2 in Gp. rewrite Eb2 in Gr.
-  assert (Eb' : below (vardecls b) (C', prC) = vardecls b) by (unfold below; cbn [fst]; rewrite HfC, E2; reflexivity).
+  assert (Eb' : below (vardecls b) (C', prC) = vardecls b) by (unfold below; cbn [fst]; rewrite HfC, M2, E2; reflexivity).
   assert (HfidC' : fid C' = anext a) by congruence.
-  assert (Epn : pnames prC = headdecls hd ++ lexdecls b) by reflexivity.
-  assert (Eenv2 : env_of ((C2, prC) :: (fr, pr) :: rest)
+  assert (Eenv2 : env_of ((C2m, prC) :: (fr, pr) :: rest)
                   = (anext a, false, headdecls hd ++ lexdecls b) :: env_of ((fr, pr) :: rest)).
+  { cbn [env_of map fst snd]. rewrite M1, E1. reflexivity. }
+  assert (EenvH2 : env_of ((C2, prH) :: (fr, pr) :: rest) = (anext a, false, headdecls hd) :: env_of ((fr, pr) :: rest)).
   { cbn [env_of map fst snd]. rewrite E1. reflexivity. }
-  assert (Efun2 : func_of ((C2, prC) :: (fr, pr) :: rest) = func_of ((fr, pr) :: rest)) by (cbn [func_of]; rewrite E2; reflexivity).
-  assert (Eenv0 : env_of ((C0, prC) :: (fr, pr) :: rest)
-                  = (anext a, false, headdecls hd ++ lexdecls b) :: env_of ((fr, pr) :: rest)) by reflexivity.
-  rewrite Eenv2, Efun2, E1, En2, En1 in F3, N3. rewrite Eenv0, El1 in Fp. cbn [fid C0] in Fp. rewrite Fp in F3.
+  assert (Efun2 : func_of ((C2m, prC) :: (fr, pr) :: rest) = func_of ((fr, pr) :: rest)) by (cbn [func_of]; rewrite M2, E2; reflexivity).
+  assert (Eenv0 : env_of ((C0, prH) :: (fr, pr) :: rest)
+                  = (anext a, false, headdecls hd) :: env_of ((fr, pr) :: rest)) by reflexivity.
+  rewrite Eenv0, El1 in Fp. cbn [fid C0] in Fp.
+  rewrite (final_push2 a ((fr, pr) :: rest) (anext a) (headdecls hd) (headdecls hd ++ lexdecls b) A (le_n _)) in Fp.
+  rewrite M5, EenvH2, Fp in F3.
+  rewrite Eenv2, Efun2, M1, E1, M6, En2, En1 in F3, N3.
   remember (resolve_m ((anext a, false, headdecls hd ++ lexdecls b) :: env_of ((fr, pr) :: rest))
                     (func_of ((fr, pr) :: rest)) (anext a) false (S (anext a)) b) as RB eqn:HeqRB.
   assert (Hle : (anext a <= snd RB)%nat).
   { rewrite <- N3. destruct A3 as [_ _ An _]. pose proof (An (C', prC) (or_introl eq_refl)) as H. cbn [fst] in H. lia. }
   destruct (after_scope k (vardecls b) IHk a fr pr rest a3 C' prC P' rest1 (headdecls hd ++ lexdecls b)
               (map (TBind (anext a) false) (headdecls hd) ++ fst RB) (snd RB) (allnames b) A A3 HfidC' Epn Hs3)
-    as (a' & fr' & rest' & R & A' & G & P1 & P2 & Pf & P3 & P4 & F & N).
+    as (a' & fr' & rest' & R & A' & G & P1 & P2 & Pf & P3 & P4 & P5 & F & N).
   { rewrite Eb'. exact Gp. }
   { rewrite Eb'. exact Gr. }
   { intros y Hy. rewrite Epn in Hy. apply in_app_iff in Hy. destruct Hy as [Hy|Hy].
-    - apply G3i. unfold dn. cbn [fst]. rewrite E3. exact Hy.
+    - apply G3i. unfold dn. cbn [fst]. rewrite EdnM. exact Hy.
     - apply P1b. exact Hy. }
-  { intros y Hy. destruct (P4b y Hy) as [H|H]; [destruct (E4 _ H)|exact H]. }
+  { intros y [Hy|Hy].
+    - destruct (P4b y Hy) as [H|H]; [rewrite EfM in H; destruct H|exact H].
+    - specialize (P5b y Hy). rewrite EfM in P5b. destruct P5b. }
   { rewrite F3, rev_app_distr, <- app_assoc. reflexivity. }
   { exact N3. }
   { exact Hle. }
@@ -628,16 +672,17 @@ Proof.
   { exact Hokk. }
   exists a', fr', rest'. split.
   { cbn [linearise arun astep]. rewrite H1. rewrite arun_app. rewrite (catch_params_lin hd Hhd), R2.
-    rewrite arun_app, R3. exact R. }
+    cbn [arun astep]. unfold a_mark_catch. rewrite Hm. rewrite arun_app, R3. exact R. }
   split; [exact A'|]. split.
   { cbn [lexdecls headdecls vardecls]. rewrite Ehv. cbn [app]. rewrite Eb' in G. exact G. }
   split; [exact P1|]. split.
   { cbn [vardecls]. rewrite Ehv. cbn [app]. intros y Hy. apply in_app_iff in Hy. destruct Hy as [Hy|Hy]; [|apply P2; exact Hy].
-    apply Pf. specialize (P2b y Hy). cbn [func_dnames] in P2b. rewrite HfC, E2 in P2b. exact P2b. }
+    apply Pf. specialize (P2b y Hy). cbn [func_dnames] in P2b. rewrite HfC, M2, E2 in P2b. exact P2b. }
   split; [cbn [headdecls]; exact P3|]. split.
   { intros y Hy. cbn [allnames]. destruct (P4 y Hy) as [H|[H|H]]; [left; exact H|right|right].
     - apply in_app_iff. right. apply in_app_iff. left. exact H.
     - apply in_app_iff. right. apply in_app_iff. right. exact H. }
+  split; [exact P5|].
   cbn [resolve_m]. rewrite (resolve_catch_params _ _ _ _ _ Hhd). rewrite <- HeqRB. destruct RB as [rb n1]. cbn [fst snd] in *.
   destruct (resolve_m (env_of ((fr, pr) :: rest)) (func_of ((fr, pr) :: rest)) (fid fr) false n1 k) as [rk n2].
   cbn [fst snd app] in *. split; [|exact N]. rewrite F. rewrite !rev_app_distr, <- !app_assoc. reflexivity.
@@ -658,35 +703,44 @@ Proof.
   apply andb_true_iff in Hok. destruct Hok as [Hndh' Hhv]. apply nodupb_NoDup in Hndh'.
   pose proof (disjointb_spec _ _ Hhv) as Hhv'.
   destruct (scope_ok_spec [] b Hsc) as (Hndb & Hlv & _).
-  set (prB := mkPr (lexdecls hd ++ lexdecls b) []).
+  set (prH := mkPr (lexdecls hd ++ lexdecls b) [] false).
+  set (prB := mkPr (lexdecls hd ++ lexdecls b) [] true).
+  assert (EpnH : pnames prH = lexdecls hd ++ lexdecls b) by reflexivity.
   assert (Epn : pnames prB = lexdecls hd ++ lexdecls b) by reflexivity.
-  destruct (L_enter a ((fr, pr) :: rest) false prB A) as (a1 & H1 & A1 & El1 & En1).
+  destruct (L_enter a ((fr, pr) :: rest) false prH A) as (a1 & H1 & A1 & El1 & En1).
   { intros y _ []. }
   set (B0 := mkF (anext a) false [] [] O O) in *.
   (* the head *)
-  destruct (IHh a1 B0 prB ((fr, pr) :: rest) A1 Hndh') as (a2 & B2 & z2 & R2 & A2 & G2 & P1h & P2h & _ & P4h & Fh & Nh).
-  { intros y Hy. split; [cbn [plex prB]; apply in_app_iff; left; exact Hy|intros []]. }
+  destruct (IHh a1 B0 prH ((fr, pr) :: rest) A1 Hndh') as (a2 & B2 & z2 & R2 & A2 & G2 & P1h & P2h & _ & P4h & _ & Fh & Nh).
+  { intros y Hy. split; [cbn [plex prH]; apply in_app_iff; left; exact Hy|intros []]. }
   { intros y Hy. cbn [var_ok fisfunc B0]. split.
-    - rewrite Epn. apply Hvh. exact Hy.
+    - rewrite EpnH. apply Hvh. exact Hy.
     - apply Hvar. apply in_app_iff. left. exact Hy. }
   { rewrite Hh0. constructor. } { rewrite Hh0. intros y []. }
   { exact Hokh. }
-  pose proof (grow_shape _ _ _ _ G2) as Hs2. cbn [shape map fst snd] in Hs2. injection Hs2 as HfidB2 HfB2 Hs2.
+  pose proof (grow_shape _ _ _ _ G2) as Hs2. pose proof Hs2 as Hs2full.
+  cbn [shape map fst snd] in Hs2. injection Hs2 as HfidB2 HfB2 Hs2.
   cbn [fid fisfunc B0] in HfidB2, HfB2.
   assert (Hs2z : shape z2 = shape ((fr, pr) :: rest)) by exact Hs2.
   destruct G2 as [_ (G2i & G2b & G2r)].
-  assert (Eb0 : below (vardecls hd) (B0, prB) = vardecls hd) by reflexivity. rewrite Eb0 in G2r.
+  assert (Eb0 : below (vardecls hd) (B0, prH) = vardecls hd) by reflexivity. rewrite Eb0 in G2r.
   unfold dn in G2i, G2b. cbn [fst dnames fdecl B0 map] in G2i, G2b. rewrite Hh0, app_nil_r in G2b.
   (* MarkForStmt: the uses made by the head are of names the loop scope does not declare *)
   destruct (A_frames _ _ A2) as [KB2 _].
-  assert (Hargs : forall y, In (UPend y) (fund B2) -> ~ In y (pnames prB)).
-  { intros y Hy Hin. destruct (P4h y Hy) as [[]|Hall]. rewrite Epn in Hin. apply in_app_iff in Hin. destruct Hin as [Hin|Hin].
+  assert (Hargs : forall y, In (UPend y) (fund B2) -> ~ In y (pnames prH)).
+  { intros y Hy Hin. destruct (P4h y Hy) as [[]|Hall]. rewrite EpnH in Hin. apply in_app_iff in Hin. destruct Hin as [Hin|Hin].
     - apply (K_pend _ _ _ KB2 y Hy). apply P1h. exact Hin.
     - apply (Hhb y Hall Hin). }
-  destruct (L_mark_for a2 B2 prB z2 A2 HfB2 Hargs) as (a2m & B2m & Hm & A2m & M1 & M2 & M3 & M4 & _ & M5 & M6).
+  destruct (L_mark_gen a2 B2 prH prB z2 (fun fr0 => length (fdecl fr0)) A2 eq_refl eq_refl)
+    as (a2m & B2m & Hm & A2m & M1 & M2 & M3 & M4 & _ & M5 & M6).
+  { intros Hf. rewrite HfB2 in Hf. discriminate. }
+  { exact Hargs. }
+  { exact (K_decl _ _ _ KB2). }
+  { intros y _ []. }
+  { intros y fs Hy. destruct (K_pass _ _ _ KB2 y fs Hy) as [_ Hp]. cbn [pass_ok] in Hp. rewrite HfB2 in Hp. exact (proj1 Hp). }
   assert (EdnM : dnames B2m = dnames B2) by (unfold dnames; rewrite M3; reflexivity).
   (* the body *)
-  destruct (IHb a2m B2m prB z2 A2m Hndb) as (a3 & B' & z3 & R3 & A3 & G3 & P1b & P2b & _ & P4b & F3 & N3).
+  destruct (IHb a2m B2m prB z2 A2m Hndb) as (a3 & B' & z3 & R3 & A3 & G3 & P1b & P2b & _ & P4b & P5b & F3 & N3).
   { intros y Hy. split; [cbn [plex prB]; apply in_app_iff; right; exact Hy|]. rewrite EdnM. intros Hi.
     destruct (G2b y Hi) as [[]|[Hi'|Hi']].
     - apply (Hhb y (lexdecls_allnames hd y Hi') Hy).
@@ -709,13 +763,15 @@ Proof.
   rewrite HfB'false in Hfm.
   assert (Eb' : below (vardecls hd ++ vardecls b) (B', prB) = vardecls hd ++ vardecls b) by (unfold below; cbn [fst]; rewrite HfB'false; reflexivity).
   (* the environments as the resolver writes them *)
-  assert (Eenv0 : env_of ((B0, prB) :: (fr, pr) :: rest)
+  assert (Eenv0 : env_of ((B0, prH) :: (fr, pr) :: rest)
                   = (anext a, false, lexdecls hd ++ lexdecls b) :: env_of ((fr, pr) :: rest)) by reflexivity.
+  assert (EenvH2 : env_of ((B2, prH) :: z2) = (anext a, false, lexdecls hd ++ lexdecls b) :: env_of ((fr, pr) :: rest)).
+  { rewrite (env_of_shape _ _ Hs2full). exact Eenv0. }
   assert (Eenv2 : env_of ((B2m, prB) :: z2) = (anext a, false, lexdecls hd ++ lexdecls b) :: env_of ((fr, pr) :: rest)).
   { cbn [env_of map fst snd]. rewrite M1, HfidB2, Epn. f_equal. apply (env_of_shape _ _ Hs2z). }
   assert (Efun2 : func_of ((B2m, prB) :: z2) = func_of ((fr, pr) :: rest)).
   { cbn [func_of]. rewrite M2, HfB2. apply (func_of_shape _ _ Hs2z). }
-  assert (Efun0 : func_of ((B0, prB) :: (fr, pr) :: rest) = func_of ((fr, pr) :: rest)) by reflexivity.
+  assert (Efun0 : func_of ((B0, prH) :: (fr, pr) :: rest) = func_of ((fr, pr) :: rest)) by reflexivity.
   rewrite Eenv0, Efun0, El1, En1 in Fh. rewrite Eenv0, Efun0, En1 in Nh. cbn [fid B0] in Fh, Nh.
   (* the head resolved in the scope of its own declarations only *)
   assert (Eirr : resolve_m ((anext a, false, lexdecls hd ++ lexdecls b) :: env_of ((fr, pr) :: rest))
@@ -726,21 +782,25 @@ Proof.
     intros y Hy Hx. exfalso. apply (Hhb y Hy Hx). }
   rewrite Eirr in Fh, Nh.
   remember (resolve_m ((anext a, false, lexdecls hd) :: env_of ((fr, pr) :: rest)) (func_of ((fr, pr) :: rest)) (anext a) false (S (anext a)) hd) as RH eqn:HeqRH.
-  rewrite Eenv2, Efun2, M1, HfidB2, M6, Nh in F3, N3. rewrite M5, Fh in F3.
+  rewrite M5, EenvH2, Fh in F3.
+  rewrite Eenv2, Efun2, M1, HfidB2, M6, Nh in F3, N3.
   remember (resolve_m ((anext a, false, lexdecls hd ++ lexdecls b) :: env_of ((fr, pr) :: rest))
                     (func_of ((fr, pr) :: rest)) (anext a) false (snd RH) b) as RB eqn:HeqRB.
   assert (Hle : (anext a <= snd RB)%nat).
   { rewrite <- N3. destruct A3 as [_ _ An _]. pose proof (An (B', prB) (or_introl eq_refl)) as H. cbn [fst] in H. lia. }
   destruct (after_scope k (vardecls hd ++ vardecls b) IHk a fr pr rest a3 B' prB P' rest1 (lexdecls hd ++ lexdecls b)
               (fst RH ++ fst RB) (snd RB) (allnames hd ++ allnames b) A A3 HfidB'a Epn Hs3z)
-    as (a' & fr' & rest' & R & A' & G & P1 & P2 & Pf & P3 & P4 & F & N).
+    as (a' & fr' & rest' & R & A' & G & P1 & P2 & Pf & P3 & P4 & P5 & F & N).
   { rewrite Eb'. exact Gp. }
   { rewrite Eb'. exact Gr. }
   { intros y Hy. rewrite Epn in Hy. apply in_app_iff in Hy. destruct Hy as [Hy|Hy].
     - apply G3i. unfold dn. cbn [fst]. rewrite EdnM. apply P1h. exact Hy.
     - apply P1b. exact Hy. }
-  { intros y Hy. apply in_app_iff. destruct (P4b y Hy) as [H|H]; [|right; exact H].
-    rewrite M4 in H. destruct (P4h y H) as [[]|H']. left. exact H'. }
+  { intros y [Hy|Hy]; apply in_app_iff.
+    - destruct (P4b y Hy) as [H|H]; [|right; exact H]. rewrite M4 in H. destruct (to_args_no_pend _ _ H).
+    - left. specialize (P5b y Hy). rewrite M4 in P5b. destruct (to_args_uarg _ _ P5b) as [H|H].
+      + destruct (P4h y H) as [[]|H']. exact H'.
+      + destruct (no_uarg_unmarked _ _ _ y KB2 eq_refl H). }
   { rewrite F3, rev_app_distr, <- app_assoc. reflexivity. }
   { exact N3. }
   { exact Hle. }
@@ -755,7 +815,7 @@ Proof.
   { exact Hokk. }
   exists a', fr', rest'. split.
   { cbn [linearise app arun astep]. rewrite H1. rewrite arun_app, R2.
-    cbn [arun astep]. rewrite Hm. rewrite arun_app, R3. exact R. }
+    cbn [arun astep]. unfold a_mark_for. rewrite Hm. rewrite arun_app, R3. exact R. }
   split; [exact A'|]. split.
   { cbn [lexdecls headdecls vardecls]. rewrite Eb', <- app_assoc in G. exact G. }
   split; [exact P1|]. split.
@@ -767,6 +827,7 @@ Proof.
   { intros y Hy. cbn [allnames]. destruct (P4 y Hy) as [H|[H|H]]; [left; exact H|right|right].
     - apply in_app_iff in H. destruct H as [H|H]; [apply in_app_iff; left; exact H|apply in_app_iff; right; apply in_app_iff; left; exact H].
     - apply in_app_iff. right. apply in_app_iff. right. exact H. }
+  split; [exact P5|].
   cbn [resolve_m]. rewrite <- HeqRH. destruct RH as [rh n1]. cbn [fst snd] in *. rewrite <- HeqRB. destruct RB as [rb n2]. cbn [fst snd] in *.
   destruct (resolve_m (env_of ((fr, pr) :: rest)) (func_of ((fr, pr) :: rest)) (fid fr) false n2 k) as [rk n3].
   cbn [fst snd app] in *. split; [|exact N]. rewrite F. rewrite !rev_app_distr, <- !app_assoc. reflexivity.
@@ -777,7 +838,7 @@ Lemma run_ok_done : run_ok Done.
 Proof.
   intros a fr pr rest A _ _ _ _ _ _. exists a, fr, rest. split; [reflexivity|]. split; [exact A|].
   split; [apply grow_top_same; reflexivity|]. split; [intros y []|]. split; [intros y []|]. split; [intros y []|].
-  split; [intros y Hy; left; exact Hy|]. split; reflexivity.
+  split; [intros y Hy; left; exact Hy|]. split; [intros y Hy; exact Hy|]. split; reflexivity.
 Qed.
 
 Theorem run_core_x p : (core_x p = true -> run_ok p) /\ (pcore_x p = true -> run_ok p).
@@ -800,35 +861,33 @@ Proof.
     apply run_ok_block; [apply core_x_headdecls; exact H1|rewrite (core_x_headdecls p2 H2); intros y []|apply (proj1 IHp1); exact H1|apply (proj1 IHp2); exact H2].
   - (* Func in a statement list *)
     apply andb_true_iff in Hc. destruct Hc as [Hc H5]. apply andb_true_iff in Hc. destruct Hc as [Hc H4].
-    apply andb_true_iff in Hc. destruct Hc as [Hc H3]. apply andb_true_iff in Hc. destruct Hc as [H1 H2].
+    apply andb_true_iff in Hc. destruct Hc as [H1 H3].
     destruct nm as [g|].
-    + apply run_ok_func_some; [exact H1|exact H2|apply core_x_headdecls; exact H3| | |apply (proj2 IHp1); exact H1|apply (proj1 IHp2); exact H3|apply (proj1 IHp3); exact H4].
+    + apply run_ok_func_some; [exact H1|apply core_x_headdecls; exact H3| | |apply (proj2 IHp1); exact H1|apply (proj1 IHp2); exact H3|apply (proj1 IHp3); exact H4].
       * apply negb_true_iff in H5. apply mem_not_in. exact H5.
       * rewrite (core_x_headdecls p3 H4). intros y [].
-    + apply run_ok_func; [exact H1|exact H2|apply core_x_headdecls; exact H3| |apply (proj2 IHp1); exact H1|apply (proj1 IHp2); exact H3|apply (proj1 IHp3); exact H4].
+    + apply run_ok_func; [exact H1|apply core_x_headdecls; exact H3| |apply (proj2 IHp1); exact H1|apply (proj1 IHp2); exact H3|apply (proj1 IHp3); exact H4].
       rewrite (core_x_headdecls p3 H4). intros y [].
   - (* Func in a parameter list *)
     apply andb_true_iff in Hc. destruct Hc as [Hc H6]. apply andb_true_iff in Hc. destruct Hc as [Hc H5].
-    apply andb_true_iff in Hc. destruct Hc as [Hc H4]. apply andb_true_iff in Hc. destruct Hc as [Hc H3].
-    apply andb_true_iff in Hc. destruct Hc as [H1 H2].
+    apply andb_true_iff in Hc. destruct Hc as [Hc H4]. apply andb_true_iff in Hc. destruct Hc as [H1 H3].
     destruct nm as [g|].
     + apply andb_true_iff in H6. destruct H6 as [H6 H7].
-      apply run_ok_func_some; [exact H1|exact H2|apply core_x_headdecls; exact H3| | |apply (proj2 IHp1); exact H1|apply (proj1 IHp2); exact H3|apply (proj2 IHp3); exact H5].
+      apply run_ok_func_some; [exact H1|apply core_x_headdecls; exact H3| | |apply (proj2 IHp1); exact H1|apply (proj1 IHp2); exact H3|apply (proj2 IHp3); exact H5].
       * apply negb_true_iff in H6. apply mem_not_in. exact H6.
       * intros y Hy [<-|Hin].
         -- apply negb_true_iff in H7. apply mem_not_in in H7. apply H7. exact Hy.
         -- apply (disjointb_spec _ _ H4 y Hin Hy).
-    + apply run_ok_func; [exact H1|exact H2|apply core_x_headdecls; exact H3| |apply (proj2 IHp1); exact H1|apply (proj1 IHp2); exact H3|apply (proj2 IHp3); exact H5].
+    + apply run_ok_func; [exact H1|apply core_x_headdecls; exact H3| |apply (proj2 IHp1); exact H1|apply (proj1 IHp2); exact H3|apply (proj2 IHp3); exact H5].
       intros y Hy Hin. apply (disjointb_spec _ _ H4 y Hin Hy).
   - (* Arrow in a statement list *)
-    apply andb_true_iff in Hc. destruct Hc as [Hc H4]. apply andb_true_iff in Hc. destruct Hc as [Hc H3].
-    apply andb_true_iff in Hc. destruct Hc as [H1 H2]. apply run_ok_arrow.
-    apply run_ok_func; [exact H1|exact H2|apply core_x_headdecls; exact H3| |apply (proj2 IHp1); exact H1|apply (proj1 IHp2); exact H3|apply (proj1 IHp3); exact H4].
+    apply andb_true_iff in Hc. destruct Hc as [Hc H4]. apply andb_true_iff in Hc. destruct Hc as [H1 H3]. apply run_ok_arrow.
+    apply run_ok_func; [exact H1|apply core_x_headdecls; exact H3| |apply (proj2 IHp1); exact H1|apply (proj1 IHp2); exact H3|apply (proj1 IHp3); exact H4].
     rewrite (core_x_headdecls p3 H4). intros y [].
   - (* Arrow in a parameter list *)
     apply andb_true_iff in Hc. destruct Hc as [Hc H5]. apply andb_true_iff in Hc. destruct Hc as [Hc H4].
-    apply andb_true_iff in Hc. destruct Hc as [Hc H3]. apply andb_true_iff in Hc. destruct Hc as [H1 H2]. apply run_ok_arrow.
-    apply run_ok_func; [exact H1|exact H2|apply core_x_headdecls; exact H3| |apply (proj2 IHp1); exact H1|apply (proj1 IHp2); exact H3|apply (proj2 IHp3); exact H5].
+    apply andb_true_iff in Hc. destruct Hc as [H1 H3]. apply run_ok_arrow.
+    apply run_ok_func; [exact H1|apply core_x_headdecls; exact H3| |apply (proj2 IHp1); exact H1|apply (proj1 IHp2); exact H3|apply (proj2 IHp3); exact H5].
     intros y Hy Hin. apply (disjointb_spec _ _ H4 y Hin Hy).
   - (* For *)
     apply andb_true_iff in Hc. destruct Hc as [Hc H5]. apply andb_true_iff in Hc. destruct Hc as [Hc H4].
